@@ -150,7 +150,7 @@ def execute(sc, ctx):
                     for pos in _positions(data, sc["triple_seed"]):
                         edits.append((e, pos))
                 else:
-                    edits.append((e, core.h64(sc["triple_seed"], e, path) % max(1, len(data))))
+                    edits.append((e, core.h64(sc["triple_seed"], e, os.path.relpath(path, w.base)) % max(1, len(data))))
         for e, pos in edits:
             for c in COMMANDS:
                 for r in cmd_roots:
